@@ -7,6 +7,7 @@ from mpf.core.events import event_handler
 from mpf.core.machine import MachineController
 from mpf.core.platform import DriverConfig, LightConfig, LightConfigColors
 from mpf.core.system_wide_device import SystemWideDevice
+from mpf.exceptions.driver_limits_error import DriverLimitsError
 from mpf.platforms.interfaces.driver_platform_interface import PulseSettings, HoldSettings
 
 MYPY = False
@@ -16,6 +17,7 @@ if MYPY:    # pragma: no cover
     from mpf.platforms.interfaces.light_platform_interface import LightPlatformInterface    # pylint: disable-msg=cyclic-import,unused-import; # noqa
 
 INVALID_TYPE_ERROR = "Invalid type {}"
+DRIVER_MAX_PULSE_MS = 255
 
 
 class DigitalOutput(SystemWideDevice):
@@ -97,12 +99,12 @@ class DigitalOutput(SystemWideDevice):
 
         config = DriverConfig(
             name=self.name,
-            default_pulse_ms=255,
+            default_pulse_ms=DRIVER_MAX_PULSE_MS,
             default_pulse_power=1.0,
             default_timed_enable_ms=None,
             default_hold_power=1.0,
             default_recycle=False,
-            max_pulse_ms=255,
+            max_pulse_ms=DRIVER_MAX_PULSE_MS,
             max_pulse_power=1.0,
             max_hold_power=1.0)
 
@@ -123,7 +125,13 @@ class DigitalOutput(SystemWideDevice):
 
     def pulse(self, pulse_ms):
         """Pulse digital output."""
+        if pulse_ms < 0:
+            raise AssertionError("Pulse_ms {} is not valid.".format(pulse_ms))
+
         if self.type == "driver":
+            if pulse_ms > DRIVER_MAX_PULSE_MS:
+                raise DriverLimitsError("Digital output {} may not be pulsed with pulse_ms {} because max_pulse_ms "
+                                        "is {}".format(self.name, pulse_ms, DRIVER_MAX_PULSE_MS))
             self.hw_driver.pulse(PulseSettings(power=1.0, duration=pulse_ms))
         elif self.type == "light":
             self.hw_driver.set_fade(1.0, -1, 1.0, -1)
